@@ -322,10 +322,16 @@ Definition at_sim_start (k : N) (c : modcfg) (now m stage : N) (s : xs) : xs * b
 
 Definition stage_list (n : N) : list N := map N.of_nat (seq 0 (N.to_nat n)).
 
-(* ModuleRef::module_restart: active := true; for stage in 0..n { at_sim_start(stage)? } *)
+(* one stage of a restart; the flag says that the stage loop ends here: at_sim_start(stage)? returned an
+   error, or the module is no longer active (a caught panic deactivated it) *)
+Definition restart_stage (k : N) (c : modcfg) (now m stage : N) (s : xs) : xs * bool :=
+  (fst (at_sim_start k c now m stage s),
+   snd (at_sim_start k c now m stage s) || negb (active (w_mod (x_w (fst (at_sim_start k c now m stage s))) m))).
+
+(* ModuleRef::module_restart: active := true; for stage in 0..n { at_sim_start(stage)?; if !active { break } } *)
 Definition module_restart (k : N) (c : modcfg) (now m : N) (s : xs) : xs :=
   let s0 := on_w (fun w => set_mod w m (set_active (w_mod w m) true)) s in
-  fst (fold_left (fun (acc : xs * bool) stage => if snd acc then acc else at_sim_start k c now m stage (fst acc))
+  fst (fold_left (fun (acc : xs * bool) stage => if snd acc then acc else restart_stage k c now m stage (fst acc))
                  (stage_list (c_stages c)) (s0, false)).
 
 (* ModuleRef::handle_message *)
